@@ -32,6 +32,37 @@ type job struct {
 	tags []string
 }
 
+func createN(n, d int64, rep bool, a int64) hx.T { return hx.C("OCreateN", n, d, rep, a) }
+func stall(ms int64) hx.T                     { return hx.C("OStall", ms) }
+
+// ---- at and beyond the capacity (999) of Mgr.queue: more expiries pending than the channel
+// holds while the owner does not read it for stallMs; afterwards the owner drains everything,
+// and later expiries too.  Every timer must still fire: one-shots once, repeating ones again
+// and again (the AfterFunc goroutines blocked on the full channel deliver as slots free up).
+func capacity(tier string) []job {
+	mk := func(name string, stallMs int64, pre []hx.T) job {
+		ops := append(pre, stall(stallMs), settle(0), doAll, settle(0), doAll, settle(0), doAll, settle(8))
+		return job{"capacity", ops, []string{"cap-" + name}}
+	}
+	out := []job{
+		// the queue is exactly full, then a one-shot and a repeating timer expire
+		mk("999+2", 1400, []hx.T{createN(999, 0, false, 7), stall(40),
+			create(1, false, 8), create(3, true, 9, "APanic")}),
+		// 1100 short timers (one-shots and repeating ones) created in a loop
+		mk("1100-mixed", 1300, []hx.T{createN(700, 1, false, 7), createN(150, 2, true, 9),
+			createN(250, 0, false, 6), create(1, true, 5, hx.C("ACreate", 1, false, 4, []any{}))}),
+	}
+	if tier == "thorough" {
+		for _, n := range []int64{998, 999, 1000, 1001, 1500} {
+			out = append(out, mk(fmt.Sprintf("%d-oneshot", n), 2500, []hx.T{createN(n, 1, false, 7)}))
+			out = append(out, mk(fmt.Sprintf("%d-repeating", n), 1600, []hx.T{createN(n, 2, true, 9)}))
+		}
+		out = append(out, mk("1100-cancel-some", 3500, []hx.T{createN(1100, 1, true, 7), stall(30),
+			cancel(0), cancel(500), cancel(1099)}))
+	}
+	return out
+}
+
 // ---- exhaustive small scope: cancel placement x kind x panic x bystander x duration ----
 func placements() []job {
 	var out []job
@@ -170,7 +201,7 @@ func Run(cfg *hx.Config) error {
 			jobs = append(jobs, job{"replay", hx.Terms(c.Ops), c.Tags})
 		}
 	} else {
-		jobs = placements()
+		jobs = append(capacity(cfg.Tier), placements()...)
 		depth := 3
 		if cfg.Tier == "thorough" {
 			depth = 4
